@@ -39,13 +39,23 @@ func (s *Topics) Open() error {
 }
 
 func (s *Topics) Close() error {
-	s.mu.Lock()
-	defer s.mu.Unlock()
-	for topic, t := range s.topics {
+	// Closing a topic drains the queues of its handlers. A handler may collect
+	// events on this Topics while it drains (e.g. a publish handler),
+	// so the lock must not be held while waiting for it.
+	for {
+		var t *Topic
+		s.mu.Lock()
+		for topic := range s.topics {
+			t = s.topics[topic]
+			delete(s.topics, topic)
+			break
+		}
+		s.mu.Unlock()
+		if t == nil {
+			return nil
+		}
 		t.close()
-		delete(s.topics, topic)
 	}
-	return nil
 }
 
 // Topic returns the topic with the given id, and if it exists or not
@@ -145,24 +155,26 @@ func (s *Topics) DeregisterHandler(topic string, h Handler) {
 		return
 	}
 
-	s.mu.Lock()
-	defer s.mu.Unlock()
+	s.mu.RLock()
+	t, ok := s.topics[topic]
+	s.mu.RUnlock()
 
-	if t, ok := s.topics[topic]; ok {
+	// Removing the handler drains its queue, see Close for why the lock is not held.
+	if ok {
 		t.removeHandler(h)
 	}
 }
 
 func (s *Topics) ReplaceHandler(topic string, oldH, newH Handler) {
 	s.mu.Lock()
-	defer s.mu.Unlock()
-
 	t, ok := s.topics[topic]
 	if !ok {
 		t = s.newTopic(topic)
 		s.topics[topic] = t
 	}
+	s.mu.Unlock()
 
+	// Removing the handler drains its queue, see Close for why the lock is not held.
 	t.removeHandler(oldH)
 	t.addHandler(newH)
 }
